@@ -307,7 +307,7 @@ impl<'a> Zone<'a> {
                         };
                     }
                 } else {
-                    let scale = math::div((cur2 - cur1).to_bits(), orus2 - orus1);
+                    let scale = math::div((cur2 - cur1).to_bits(), orus2.wrapping_sub(orus1));
                     for ((orig, unscaled), point) in iter {
                         let a = orig.$coord;
                         point.$coord = if a <= org1 {
@@ -315,7 +315,10 @@ impl<'a> Zone<'a> {
                         } else if a >= org2 {
                             a + delta2
                         } else {
-                            cur1 + F26Dot6::from_bits(math::mul(unscaled.$coord - orus1, scale))
+                            cur1 + F26Dot6::from_bits(math::mul(
+                                unscaled.$coord.wrapping_sub(orus1),
+                                scale,
+                            ))
                         };
                     }
                 }
